@@ -287,6 +287,9 @@ func (x *FnExec) fieldHeap(structT types.Type, field int) (name, sort string, ft
 	f := st.Field(field)
 	name = "H_" + typeShort(structT) + "." + mangle(f.Name())
 	name = "|" + name + "|"
+	if x.eng != nil {
+		x.eng.heapStruct[name] = structT
+	}
 	return name, fmt.Sprintf("(Array Ref %s)", x.q.sortOf(f.Type())), f.Type()
 }
 
